@@ -280,6 +280,9 @@ func (r *crashRun) tokenOfEval(receiver int, e *big.Int) int {
 // absMsg projects a message of the keyper under test to [k, p].
 func (r *crashRun) absMsg(m *shmsg.Message) J {
 	w := r.w
+	if e, ok := eonOf(m); ok && e != w.Eon {
+		return J{"k": "old", "p": 0} // left over from the failed first eon
+	}
 	switch {
 	case m.GetPolyCommitment() != nil:
 		pc, err := app.ParsePolyCommitmentMsg(m.GetPolyCommitment(), w.addr(r.sc.Kut))
@@ -593,4 +596,21 @@ func marshalLines(ls []CLine) []byte {
 		buf.WriteByte('\n')
 	}
 	return buf.Bytes()
+}
+
+// eonOf returns the eon a DKG message belongs to.
+func eonOf(m *shmsg.Message) (uint64, bool) {
+	switch {
+	case m.GetPolyCommitment() != nil:
+		return m.GetPolyCommitment().Eon, true
+	case m.GetPolyEval() != nil:
+		return m.GetPolyEval().Eon, true
+	case m.GetAccusation() != nil:
+		return m.GetAccusation().Eon, true
+	case m.GetApology() != nil:
+		return m.GetApology().Eon, true
+	case m.GetDkgResult() != nil:
+		return m.GetDkgResult().Eon, true
+	}
+	return 0, false
 }
